@@ -1129,7 +1129,10 @@ def expr_fn(
             return -ret
         if tok == "+":
             tok = get_token()
-            return parse_atom(tok)
+            return parse_unary(tok)
+        if tok in unary_fns:
+            # A function is an operand, too: 2 e abs 1, 2 e -sin 1
+            return parse_unary_fn(tok)
         ret = parse_atom(tok)
         return ret
 
